@@ -12,7 +12,7 @@ BasesOK == \A b \in Bases : TypedFaults(b) = {} /\ ValidateOK(b)
 TypedImpliesValid == (phase = 1 /\ vec.ev = "typed") => (TypedFaults(RawOfVec) = {} => ValidateOK(RawOfVec))
 PathsRooted == (phase = 1 /\ vec.ev = "typed") =>
    \A f \in TypedFaults(RawOfVec) : (f[2] = <<>> /\ f[1] = "MissingField") \/ (f[2] # <<>> /\ f[2][1][1] = MI)
-Benign(f) == f.t \in {"none", "hint_on_removed"} \/ (f.t = "bound" /\ f.w \in {"point", "absent", "free"})
+Benign(f) == f.t \in {"none", "hint_on_removed"} \/ (f.t = "bound" /\ f.w \in {"point", "zero", "negzero", "absent", "free"})
 SingleFaultsBite == \A b \in Bases : \A f \in Faults(b) : (Applicable(b, f) /\ ~Benign(f)) => TypedFaults(Apply(b, f)) # {}
 ValidateFaultsBite == \A b \in Bases : \A f \in Faults(b) :
    (Applicable(b, f) /\ (f.t \in {"dupvar", "dupcon"} \/ (f.t = "undef" /\ f.w \in {"objective", "con", "rem"}))) => ~ValidateOK(Apply(b, f))
